@@ -92,14 +92,14 @@ PROPS = {
     },
     "C07": {
         "bin": "px_icy", "budget_ms": 30000, "mem_cap_mb": 2048, "wall_cap": {"quick": 600, "thorough": 2400},
-        "rule": "documents: a two-layer base document varied in every single dimension and every pair of dimensions (quick: pairs with <=200 combinations; thorough: all pairs) over 18 dimensions - layer count 1..=6, layer size "
+        "rule": "documents: a two-layer base document varied in every single dimension, every pair of dimensions and every triple of dimensions (quick: the triples with <=100 combinations; thorough: all 255 000 triples) over 18 dimensions - layer count 1..=6, layer size "
                 "{0x0,1x1,2x2,3x1,200x2,1x120,0x2,2x0,200x120}, offsets {-50,-1,0,2,50}, all 32 flag combinations of a normal and of the base layer, 3 modes, colour tag, transparency {0,1,255}, default font page {0,255,300}, "
                 "titles (empty, Unicode incl. astral, 300 chars, embedded NUL), 5 buffer types, 3 ice modes, 4 palette modes, 4 font modes, palettes of 16/1/17/300 colours, font slots {0}/{0,1}/{0,255,300}, SAUCE none/plain/with comments, "
                 "buffer sizes up to 200x120; cells: every row of length 0..=4 over 7 cell kinds (short, long char, long colour, long font page, invisible, transparent fg, transparent bg) in layers of width len, len+1, len+3 (row terminator placement); "
                 "non-trivial = every document (all contain visible cells)",
         "level_text": "every document of the stated small scope is saved by the real Buffer::to_bytes(\"icy\", lossless) and loaded by the real Buffer::from_bytes and compared field by field",
         "level_note": "invisible cells compare as invisible only; documents referencing a font page without a font or a colour beyond the palette are excluded as the statement excludes them",
-        "technique": "small-scope exhaustive input enumeration (pairwise-complete over document dimensions, complete over cell rows up to length 4) with a round-trip oracle on the implementation",
+        "technique": "small-scope exhaustive input enumeration (pairwise- and, in the thorough tier, triple-complete over document dimensions, complete over cell rows up to length 4) with a round-trip oracle on the implementation",
         "assumptions": [],
     },
     "C10": {
